@@ -119,6 +119,30 @@ def run(ctx):
     # ---- R5 what an intermediate operator collected is forwarded before a stop is propagated
     collected_output_forwarded(ctx, P, "R5")
 
+    # ---- R7 the spilling sort hands every part of its sort keys to the external sort
+    ms = P.fn("SpillableSortPushOperator::maybe_spill")
+    SK = "grafeo_core::execution::operators::push::sort::SortKey"
+    if SK not in P.adts:
+        raise CheckerError("C17-R7: push::sort::SortKey not found")
+    readf = set()
+    for g in P.family(ms):
+        for b in g.blocks:
+            if b["cl"]:
+                continue
+            for pl, rv, ln in b["s"]:
+                for q in _places_of_rv(rv) if rv[0] != "dead" else []:
+                    m_ = _tfield(q, SK)
+                    if m_:
+                        readf.add(m_)
+            t_ = b["t"]
+            if t_["k"] == "sw" and isinstance(t_["d"], list) and len(t_["d"]) > 1 and isinstance(t_["d"][1], list) and _tfield(t_["d"][1], SK):
+                readf.add(_tfield(t_["d"][1], SK))
+    for fl in P.adts[SK]["variants"][0]["fields"]:
+        ctx.ob("R7", "SpillableSortPushOperator::maybe_spill#key.%s" % fl[0], fl[0] in readf,
+               what="the spilling sort builds the external sort's keys without reading `%s` of its own sort keys: runs are sorted with the "
+                    "requested %s but merged with a default, so the spilled result is ordered differently from the in-memory sort" % (fl[0], fl[0]),
+               where=ms.loc())
+
     # ---- R6 merging partial results covers what accumulation updates
     merge_covers_accumulation(ctx, P, "R6")
 
